@@ -51,7 +51,7 @@ def _violations(prop, repo, verif):
 
 
 def run(prop, repo, verif, R):
-    seeds = sorted(glob.glob(os.path.join(verif, "seeded", prop + "-*", "patch.diff")))
+    seeds = sorted(glob.glob(os.path.join(verif, "seeded", prop + "-*", "patch.diff")) + glob.glob(os.path.join(verif, "seeded", prop + "r[0-9]-*", "patch.diff")))
     if not seeds:
         R.selftests.append({"seed": None, "outcome": "no seeded change recorded for this property"})
         return
